@@ -67,6 +67,17 @@ CLAIMED = {
     note='The atomicity of the emitted IF text inside larger expressions is decided by the correspondence here (text-level model under C01). '
          'Text conditions outside the domain. Known findings: iferror_fallback_eager_or_null_spelling, ifs_evaluates_everything.',
     technique='Coq proof (structural/size induction on the expression model) + vm_compute correspondence', ref='6/C13'),
+ 'C12': dict(
+    text='Coq theorems over a Gallina model of LambdaTokenTranslator (criterion compilation driven by the regex string regenerated from the '
+         'source), the emitted three-way lambda, _regexp (run through the Gallina regex engine) and _sum_if/_sumifs/_countifs/_averageifs: '
+         'unbounded — on integer data SUMIFS sums exactly the positions accepted by every (range, op n) pair, for any number of pairs and any '
+         'length; size mismatches raise before any criterion is evaluated (SUMIFS/COUNTIFS/AVERAGEIFS, arbitrary contents); kernel-exhaustive — '
+         'wildcard criteria of length <=3 x 11 cell texts match whole-cell wildcard semantics outside exact defect classes. '
+         'Correspondence through real formulas with all criterion forms, 1-3 pairs, mis-sized and shifted ranges.',
+    note='dateutil.parser.parse and repr(float) are oracles supplied per case. Spec silent on boolean/date cells and numeric-looking text criteria. '
+         'Known findings: 10 classes (wildcards as regex prefix match, "="/"<>" texts literal, blank cast to 0, ordering on text cell raises, '
+         'COUNTIFS drops zeros / compares None, AVERAGEIFS text/blank target, SUMIF text target, dateutil-parsed texts, dropped & literal).',
+    technique='Coq proof (list induction) + kernel-exhaustive sweep + regenerated regex tables + vm_compute correspondence', ref='6/C12'),
 }
 
 ids = [json.loads(l)['id'] for l in open('/verif/properties.jsonl')]
